@@ -29,6 +29,7 @@ deriving DecidableEq, Repr
 
 inductive Op
   | create                 -- ATTACH / CREATE SCHEMA / CREATE TABLE: error when the object exists
+  | bad                    -- an engine call that always fails (ATTACH with a name DuckDB cannot parse, e.g. database="my-db")
   | replace                -- CREATE OR REPLACE TABLE: the table exists and is empty afterwards (its side-table comment stays
                            -- until the statement's own comment upsert)
   | setInfo                -- info_schema.creation_sql + macros: `IF NOT EXISTS`, idempotent
@@ -48,6 +49,7 @@ deriving DecidableEq, Repr
 
 def Op.apply : Op → Val → Val × Res
   | .create, v => if v.ex then (v, .err) else ({ v with ex := true }, .ok)
+  | .bad, v => (v, .err)
   | .replace, v => ({ v with ex := true, rows := [] }, .ok)
   | .setInfo, v => ({ v with info := true }, .ok)
   | .insert k x, v => if v.ex then ({ v with rows := v.rows ++ [(k, x)] }, .ok) else (v, .err)
@@ -166,6 +168,12 @@ def connectWith (lock : Option Nat) (cd cs : Bool) (d s : Nat) : Stmt :=
     `self.database`), only the lock is taken and released -/
 def connectNone (lock : Option Nat) : Stmt :=
   match lock with | some n => [.acquire n, .release n] | none => []
+
+/-- a `connect(database=…)` whose bootstrap raises (the name is not a valid identifier): the existence probe, then the failing
+    ATTACH; the `with lock:` block still releases the lock (`unwind` keeps the `release`) -/
+def connectBad (lock : Option Nat) (d : Nat) : Stmt :=
+  (match lock with | some n => [.acquire n] | none => []) ++ [.probe (.db d), .call (.db d) .bad] ++
+  (match lock with | some n => [.release n] | none => [])
 
 /-- the default configuration (both flags on); `locked` = under the instance lock (lock 0) of the `fix:` commit -/
 def connectStmt (locked : Bool) (d s : Nat) : Stmt := connectWith (if locked then some 0 else none) true true d s
